@@ -271,11 +271,11 @@ func (hr *histRunner) history(hi int) *histObs {
 				call := fmt.Sprintf("H%dU%d_%s(%s)", hi, s.unit, s.f.name, at.goText)
 				switch s.f.res {
 				case gInt:
-					fmt.Fprintf(&mainBody, "\trun(%d, %d, func() string { return \"i:\" + strconv.Itoa(%s) })\n", pi, ci, call)
+					fmt.Fprintf(&mainBody, "\trun(%d, %d, func() string { return \"i:\" + strconv.Itoa(int(%s)) })\n", pi, ci, call)
 				case gStr:
 					fmt.Fprintf(&mainBody, "\trun(%d, %d, func() string { return \"s:\" + hex.EncodeToString([]byte(%s)) })\n", pi, ci, call)
 				case gBool:
-					fmt.Fprintf(&mainBody, "\trun(%d, %d, func() string { return \"b:\" + strconv.FormatBool(%s) })\n", pi, ci, call)
+					fmt.Fprintf(&mainBody, "\trun(%d, %d, func() string { return \"b:\" + strconv.FormatBool(bool(%s)) })\n", pi, ci, call)
 				default:
 					fmt.Fprintf(&mainBody, "\trun(%d, %d, func() string { %s; return \"v\" })\n", pi, ci, call)
 				}
